@@ -111,7 +111,7 @@ MUTANTS = [
     ('C13', 'supp/scope.py', r"self\.location = np\(node\.body\[0\]\)", "self.location = (np(node)[0] + 1, np(node)[1] + 4)", 'C13-R1'),
     ('C13', 'supp/util.py', r"return self\.location < other\.location", "return self.location[0] < other.location[0]", 'C13-R2'),
     ('C13', 'supp/util.py', r"self\.last_loc = node\.lineno, node\.col_offset \+ 1\n        self\.visit\(node\)", "self.last_loc = node.lineno + 1, 0\n        self.visit(node)", 'C13-R1'),
-    ('C13', 'supp/linter.py', r"message = 'Unused name: \{\}'", "message = 'Unused name: {} (line %d)' % name.declared_at[0] + '{}'", 'C13-R'),
+    ('C13', 'supp/linter.py', r"message = 'Unused name: \{\}'", "message = 'Unused name: {} (line ' + str(name.declared_at[0]) + ')'", 'C13-R'),
     ('C13', 'supp/scope.py', r"return body\[0\]\.decorator_list\[0\]\.lineno, body\[0\]\.col_offset", "return body[0].decorator_list[0].lineno, body[0].decorator_list[0].col_offset - 1", 'C13-R1'),
     # ---- C14
     ('C14', 'supp/umsgpack.py', r"elif obj <= 2\*\*16-1:", "elif obj <= 2**16:", 'C14-R1'),
